@@ -3,6 +3,9 @@ import GMGModel.SmootherCode
 import GMGModel.ExSmootherCode
 import GMGModel.DirectCode
 import GMGModel.Interp
+import GMGModel.SmootherGiveCode
+import GMGModel.ExSmootherGiveCode
+import GMGModel.DirectGiveCode
 /-!
 # The whole cycle inside the model: the abstract operators of `Cycle.Ops` instantiated with the code-level models
 `Cycle.lean` / `Solve.lean` describe the control flow of the solver over ABSTRACT per-level operators.  Here those operators
@@ -82,6 +85,31 @@ def ops : Ops (Option (Array α)) where
   lin43 x y := x.bind fun x => y.bind fun y =>
     some (Array.ofFn (n := x.size) fun p => c43 * x[p] + cm13 * y.getD p.val (n 0))
   exResid l r rn := r.bind fun r => rn.bind fun rn => some (exResidual H l r rn)
+
+/-- the offset tables of the scatter ("give") variants (regenerated from the headers: `Generated/Stencils.lean`) -/
+structure GiveTables where
+  direct : DirectCode.Tables                 -- the `DirectGive_*` tables of `directSolverGiveCustomLU.h`
+  exSmoother : ExSmootherGiveCode.Tables     -- the two tables of `extrapolatedSmootherGive.h`
+
+/-- the same cycle with the operators of the GIVE strategy: `SmootherGive`, `ExtrapolatedSmootherGive` (matrices assembled by
+    scatter, `none` also for an out-of-bounds store of that assembly), `ResidualGive`, `DirectSolverGiveCustomLU`; transfers and
+    vector kernels are shared by both strategies.  `C10g`: on admissible hierarchies every cycle over `opsGive` returns what the
+    cycle over `ops` returns. -/
+def opsGive (G : GiveTables) : Ops (Option (Array α)) :=
+  { ops H with
+    smooth := fun l x rhs => x.bind fun x => rhs.bind fun f =>
+      SmootherGiveCode.sweep (lvl H l).op (lvl H l).nc H.tiny (fld H l f) x
+    exSmooth := fun l x rhs => x.bind fun x => rhs.bind fun f =>
+      (ExSmootherGiveCode.assemble G.exSmoother (lvl H l).op (lvl H l).nc).bind fun m =>
+        ExSmootherGiveCode.sweep (lvl H l).op m H.tiny (lvl H l).nc (fld H l f) x
+    resid := fun l rhs x => rhs.bind fun f => x.bind fun x =>
+      some (ofFld H l (give (lvl H l).op (fld H l f) (fld H l x)))
+    solve := fun l v => v.bind fun b =>
+      (DirectGiveCode.solve G.direct (lvl H l).op (lvl H l).nc H.tiny b.toList).bind fun r => r.map fun xs => xs.toArray }
+
+/-- one top-level cycle of `solve()` with the give operators -/
+def cycleGive (G : GiveTables) (c : Cfg) (k : Kind) (extrapolated fgs : Bool) (m : Mem (Option (Array α))) : Mem (Option (Array α)) :=
+  exec (opsGive H G) (cycleAt c k extrapolated fgs 0) m
 
 /-! ### strict memory for execution
 `Cycle.exec` threads a memory `Ref → V` (a function) through the instruction list — the right object for the theorems, but as
